@@ -55,9 +55,10 @@ def _run(cfg, given, make_input, **bal_kw):
                 rows = b.rebalance(make_input(), output_dict=True, stats=st)
         else:
             rows = b.rebalance(make_input(), output_dict=True, stats=st)
-        return {"config": cfg, "given": list(given), "rows": pub(rows), "raw_keys": sorted({k for r in rows for k in r}) if rows else [], "stats": st, "error": None}
+        return {"config": cfg, "given": list(given), "rows": pub(rows), "raw_keys": sorted({k for r in rows for k in r}) if rows else [], "stats": st, "error": None,
+                "t": getattr(b, "confidence_threshold", 0)}
     except Exception as e:
-        return {"config": cfg, "given": list(given), "rows": [], "raw_keys": [], "stats": st, "error": "%s: %s" % (type(e).__name__, str(e)[:200])}
+        return {"config": cfg, "given": list(given), "rows": [], "raw_keys": [], "stats": st, "error": "%s: %s" % (type(e).__name__, str(e)[:200]), "t": bal_kw.get("confidence_threshold", 0)}
 
 
 def compute():
@@ -94,6 +95,10 @@ def compute():
         for cfg, given, kw in (("cache cold, batch_size=8", M, {}), ("cache warm, same rows", M, {}), ("cache warm, rows permuted", perm, {}),
                                ("cache warm, threshold 0.5", M, {"confidence_threshold": 0.5}), ("cache warm, threshold back to 0", M, {})):
             runs.append(_run(cfg, given, lambda given=given: list(given), cache=True, cache_dir=cdir, batch_size=8, **kw))
+        # a second cache directory filled at a HIGH threshold first, then read at lower ones
+        cdir2 = os.path.join(tmp, "cache2")
+        for cfg, t in (("cache2 cold, threshold 0.9", 0.9), ("cache2 warm, threshold 0.2", 0.2), ("cache2 warm, threshold 0", 0), ("cache2 warm, threshold 1", 1)):
+            runs.append(_run(cfg, M, lambda: list(M), cache=True, cache_dir=cdir2, batch_size=8, confidence_threshold=t))
         # one Balancer object called three times (second call: other rows; third: the first rows again)
         b = Balancer(n_jobs=1, batch_size=6)
         runs.append(_run("one Balancer object, call 1", M, lambda: list(M), _balancer=b))
